@@ -76,6 +76,13 @@ def cases(tier, seed):
     for n in range(1, 5):
         out.append({"id": f"segargmax-float-n{n}-trail[]", "kind": "segargmax", "n": n, "trail": [], "alpha": "float"})
     out.append({"id": "segargmax-float-n3-trail[2]", "kind": "segargmax", "n": 3, "trail": [2], "alpha": "float"})
+    for n in range(2, 5):
+        out.append({"id": f"segargmax-nearties-n{n}-trail[]", "kind": "segargmax", "n": n, "trail": [], "alpha": "near"})
+    for shape in [[2], [3], [4], [2, 2]]:
+        nd = len(shape)
+        for r in range(1, nd + 1):
+            for axes in itertools.combinations(range(nd), r):
+                out.append({"id": f"argmax-nearties-{shape}-axes{list(axes)}", "kind": "argmax", "shape": shape, "axes": list(axes), "alpha": "near"})
     for n in range(1, nmax + 1):
         out.append({"id": f"reducer-segments-n{n}", "kind": "reducer_seg", "n": n})
     for layout in _reducer_layouts():
@@ -131,12 +138,12 @@ def _run_argmax(case):
     from lcm.argmax import argmax
 
     shape = tuple(case["shape"])
-    alpha = {"int": [0, 1, 2], "bin": [0, 1], "float": [-np.inf, 0.0, 1.5]}[case["alpha"]]
+    alpha = {"int": [0, 1, 2], "bin": [0, 1], "float": [-np.inf, 0.0, 1.5], "near": [1.0, 1.0 + 2e-7, 0.5]}[case["alpha"]]
     A = _all_arrays(shape, alpha)
-    A = A.astype(np.float64) if case["alpha"] == "float" else A.astype(np.int64)
+    A = A.astype(np.float64) if case["alpha"] in ("float", "near") else A.astype(np.int64)
     Ms = _all_arrays(shape, [False, True]).astype(bool)
     axes = tuple(range(len(shape))) if case["axes"] is None else tuple(case["axes"])
-    initial = -np.inf if case["alpha"] == "float" else -1
+    initial = -np.inf if case["alpha"] in ("float", "near") else -1
     viols = []
     n = 0
     f_m = jax.jit(jax.vmap(lambda a, m: argmax(a, axis=case["axes"] if case["axes"] is None else tuple(case["axes"]), where=m, initial=initial)))
@@ -202,7 +209,10 @@ def _run_segargmax(case):
 
     n = case["n"]
     trail = tuple(case["trail"])
-    if case.get("alpha") == "float":
+    if case.get("alpha") == "near":
+        # near ties: a row within 2e-7 of the maximum does NOT attain it
+        A = _all_arrays((n, *trail), [1.0, 1.0 + 2e-7, 0.5]).astype(np.float64)
+    elif case.get("alpha") == "float":
         A = _all_arrays((n, *trail), [-np.inf, 0.0, 1.5]).astype(np.float64)
     else:
         A = _all_arrays((n, *trail), [0, 1, 2]).astype(np.int64)
